@@ -424,7 +424,7 @@ func (s *Sess) Exec(o EOp) string {
 		if !h.reported && !sameRules(h.clone, h.orig) {
 			h.reported = true
 			if len(argMutations) < 5 {
-				argMutations = append(argMutations, fmt.Sprintf("handed in by %s: %v, found after %s: %v", h.op, h.orig, o.Line(), h.clone))
+				argMutations = append(argMutations, fmt.Sprintf("%s: %v, found after %s: %v", h.op, h.orig, o.Line(), h.clone))
 			}
 		}
 	}
@@ -460,9 +460,19 @@ func sameRules(a, b [][]string) bool {
 func (s *Sess) hand(o EOp, rs [][]string) [][]string {
 	cl := cloneRules(rs)
 	if len(s.handed) < 400 {
-		s.handed = append(s.handed, &handedRules{op: o.Line(), orig: cloneRules(rs), clone: cl})
+		s.handed = append(s.handed, &handedRules{op: "handed in by " + o.Line(), orig: cloneRules(rs), clone: cl})
 	}
 	return cl
+}
+
+// keepReturned remembers a rule list the library returned (the affected rules of a Self operation, which a
+// dispatcher forwards to the other replicas): it belongs to the caller from then on and is compared with its
+// pristine copy after every later call, like the lists handed in.
+func (s *Sess) keepReturned(o EOp, rs [][]string) {
+	if len(rs) == 0 || len(s.handed) >= 400 {
+		return
+	}
+	s.handed = append(s.handed, &handedRules{op: "the result of " + o.Line(), orig: cloneRules(rs), clone: rs})
 }
 
 func (s *Sess) hand1(o EOp, r []string) []string {
@@ -642,12 +652,15 @@ func (s *Sess) execInner(o EOp) (obs string) {
 		return fmt.Sprintf("%s F=%d", okErr(err), f)
 	case "dist-add":
 		aff, err := s.D.AddPoliciesSelf(persistFn(o.Persist), o.Sec, o.PType, s.hand(o, o.Rules))
+		s.keepReturned(o, aff)
 		return fmt.Sprintf("A %s E %d", proto.EncRules(aff), errBit(err))
 	case "dist-rm":
 		aff, err := s.D.RemovePoliciesSelf(persistFn(o.Persist), o.Sec, o.PType, s.hand(o, o.Rules))
+		s.keepReturned(o, aff)
 		return fmt.Sprintf("A %s E %d", proto.EncRules(aff), errBit(err))
 	case "dist-rmf":
 		aff, err := s.D.RemoveFilteredPolicySelf(persistFn(o.Persist), o.Sec, o.PType, o.FI, o.Vals...)
+		s.keepReturned(o, aff)
 		return fmt.Sprintf("A %s E %d", proto.EncRules(aff), errBit(err))
 	case "dist-clear":
 		err := s.D.ClearPolicySelf(persistFn(o.Persist))
